@@ -151,11 +151,18 @@ func unmarshalOut(d []byte) (string, map[string]string) {
 				out = "PANIC"
 			}
 		}()
-		if err := md.UnmarshalValues(d); err != nil {
+		buf := append([]byte(nil), d...) // the caller's buffer: reused after the call
+		if err := md.UnmarshalValues(buf); err != nil {
 			out = "ERR " + errEnum(err)
 			return
 		}
 		out = "OK " + mapStr(md.Values)
+		for i := range buf {
+			buf[i] = 0xff
+		}
+		if again := "OK " + mapStr(md.Values); again != out {
+			out = "ALIASED: the decoded map changed when the input buffer was reused"
+		}
 	}()
 	return out, md.Values
 }
